@@ -3,9 +3,28 @@
 generate(ws, gen_dir)      -> writes gen_dir/*.rs (only when content changed), returns a report dict
 check_completeness(ws, hs) -> list of human-readable drift messages (e.g. a new BuiltinValueRole
                               variant that no harness row covers); non-empty => run is inconclusive
+
+What is generated:
+  surface_actions.rs  the semantic actions of the literal rules of parser.lalrpop (Integer,
+                      String, Char and the integer alternative of Meta), copied verbatim into
+                      ordinary functions, followed by the fixed harness text of
+                      harness/templates/surface_actions.tail.rs. The LR tables and the action
+                      functions inside LALRPOP's output are private to a generated module and out
+                      of the engine's reach, so this is how the *actual* action code is executed
+                      symbolically.
+  dynamics_kernels.rs the bodies of the arithmetic / comparison macros and helpers of impls.rs
+                      (see gen_dynamics_kernels) - only used when the entry-point harnesses of
+                      impls.rs are not feasible.
 """
 import os
 import re
+
+VERIF = os.path.dirname(os.path.dirname(os.path.abspath(__file__)))
+TEMPLATES = os.path.join(VERIF, "harness", "templates")
+
+
+class Drift(Exception):
+    pass
 
 
 def write_if_changed(path, text):
@@ -16,10 +35,155 @@ def write_if_changed(path, text):
     return True
 
 
+# ------------------------------------------------------------------------------------------
+# LALRPOP action extraction
+
+
+def _scan_to(text, start, stop_chars):
+    """Index of the first char in stop_chars at nesting depth 0 (outside strings), from start."""
+    depth = 0
+    i = start
+    n = len(text)
+    while i < n:
+        c = text[i]
+        if c == '"':
+            i += 1
+            while i < n and text[i] != '"':
+                i += 2 if text[i] == "\\" else 1
+        elif c == "/" and text[i:i + 2] == "//":
+            while i < n and text[i] != "\n":
+                i += 1
+            continue
+        elif c in "([{":
+            depth += 1
+        elif c in ")]}":
+            if depth == 0 and c in stop_chars:
+                return i
+            depth -= 1
+        elif depth == 0 and c in stop_chars:
+            return i
+        i += 1
+    return -1
+
+
+def _rule(text, name):
+    m = re.search(r"^" + re.escape(name) + r"\s*:\s*([^=\n]+?)\s*=\s*", text, re.M)
+    if not m:
+        raise Drift(f"parser.lalrpop: rule `{name}` not found")
+    end = _scan_to(text, m.end(), ";")
+    if end < 0:
+        raise Drift(f"parser.lalrpop: rule `{name}` has no terminating `;`")
+    return m.group(1).strip(), text[m.end():end].strip()
+
+
+def _alternatives(body):
+    if not body.startswith("{"):
+        return [body]
+    inner = body[1:body.rindex("}")]
+    alts, start = [], 0
+    while True:
+        i = _scan_to(inner, start, ",")
+        if i < 0:
+            tail = inner[start:].strip()
+            if tail:
+                alts.append(tail)
+            break
+        alts.append(inner[start:i].strip())
+        start = i + 1
+    return alts
+
+
+SYMBOL_TYPES = {'@L': "usize", '@R': "usize", '"IntLit"': "&'input str", '"StrLit"': "&'input str",
+                '"CharLit"': "&'input str", '"FloatLit"': "&'input str"}
+
+
+def _action_fn(fn_name, ret_ty, alt):
+    m = re.search(r"=>\??", alt)
+    if not m:
+        raise Drift(f"parser.lalrpop: no action arrow in `{alt[:60]}`")
+    fallible = m.group(0) == "=>?"
+    symbols, action = alt[:m.start()].strip(), alt[m.end():].strip()
+    params, anon = [], 0
+    for sm in re.finditer(r"<\s*(?:(mut\s+)?(\w+)\s*:\s*)?([^<>]+?)\s*>", symbols):
+        sym = sm.group(3).strip()
+        if sym not in SYMBOL_TYPES:
+            raise Drift(f"parser.lalrpop: unexpected symbol `{sym}` in literal rule `{fn_name}`")
+        if sm.group(2):
+            params.append((sm.group(2), SYMBOL_TYPES[sym]))
+        else:
+            params.append((f"__{anon}", SYMBOL_TYPES[sym]))
+            anon += 1
+    if "<>" in action:
+        if anon != 1:
+            raise Drift(f"parser.lalrpop: `<>` with {anon} anonymous symbols in `{fn_name}`")
+        action = action.replace("<>", "__0")
+    plist = ", ".join(f"{n}: {t}" for n, t in params)
+    body = action if fallible else f"Ok({action})"
+    src = (f"#[allow(unused_variables, unused_braces, clippy::all)]\n"
+           f"pub(super) fn {fn_name}<'input>({plist}) -> Result<{ret_ty}, "
+           f"lalrpop_util::ParseError<usize, Tok<'input>, &'static str>> {{\n    {body}\n}}\n")
+    return src, [n for n, _ in params], fallible, action
+
+
+def gen_surface_actions(ws, gen_dir):
+    path = os.path.join(ws, "lang/surface/src/textual/parser.lalrpop")
+    text = open(path, encoding="utf-8").read()
+    gm = re.search(r"^grammar\b", text, re.M)
+    if not gm:
+        raise Drift("parser.lalrpop: `grammar` header not found")
+    preamble = text[:gm.start()]
+    uses = "\n".join(l for l in preamble.splitlines() if not l.strip().startswith("//"))
+    out = ["// GENERATED by /verif/tools/gen.py from lang/surface/src/textual/parser.lalrpop - do not edit.",
+           "#![allow(unused_imports)]", "mod actions {", uses, ""]
+    report = {"source": "lang/surface/src/textual/parser.lalrpop", "actions": {}}
+    wanted = [("Integer", "action_integer", None), ("String", "action_string", None),
+              ("Char", "action_char", None), ("Meta", "action_meta_integer", '"IntLit"')]
+    shapes = {}
+    for rule, fn, pick in wanted:
+        ret_ty, body = _rule(text, rule)
+        alts = _alternatives(body)
+        if pick:
+            alts = [a for a in alts if pick in a.split("=>")[0]]
+        if len(alts) != 1:
+            raise Drift(f"parser.lalrpop: expected exactly one alternative for `{rule}`{' with ' + pick if pick else ''}, found {len(alts)}")
+        src, params, fallible, action = _action_fn(fn, ret_ty, alts[0])
+        out.append(src)
+        report["actions"][fn] = {"rule": rule, "fallible": fallible, "action": " ".join(action.split())[:300]}
+        shapes[fn] = params
+    out.append("}\n")
+    # call shims with a fixed signature so the fixed harness text does not depend on the rule's symbols
+    out.append("use crate::textual::lexer::Tok;\nuse zydeco_syntax::*;\n")
+    for fn, ret in (("action_integer", "IntegerLiteral"), ("action_string", "String"), ("action_char", "char"),
+                    ("action_meta_integer", "Meta")):
+        args, seen_pos = [], 0
+        # recover param types by order from the generated signature
+        sig = re.search(r"fn " + fn + r"<'input>\(([^)]*)\)", "\n".join(out)).group(1)
+        for decl in [d.strip() for d in sig.split(",") if d.strip()]:
+            name, ty = [x.strip() for x in decl.split(":", 1)]
+            if ty == "usize":
+                args.append("0" if seen_pos == 0 else "text.len()")
+                seen_pos += 1
+            else:
+                args.append("text")
+        out.append(f"fn call_{fn}<'input>(text: &'input str) -> Result<{ret}, "
+                   f"lalrpop_util::ParseError<usize, Tok<'input>, &'static str>> {{\n    actions::{fn}({', '.join(args)})\n}}\n")
+    out.append(open(os.path.join(TEMPLATES, "surface_actions.tail.rs"), encoding="utf-8").read())
+    write_if_changed(os.path.join(gen_dir, "surface_actions.rs"), "\n".join(out))
+    return report
+
+
 def generate(ws, gen_dir):
     report = {}
+    try:
+        report["surface_actions"] = gen_surface_actions(ws, gen_dir)
+    except Drift as e:
+        report["surface_actions"] = {"error": str(e)}
+        # an empty module keeps the other harnesses of the crate compiling; properties that
+        # require these harnesses turn inconclusive (plan.PROPERTIES[..]["requires_gen"])
+        write_if_changed(os.path.join(gen_dir, "surface_actions.rs"), "// extraction failed: see evidence\n")
     return report
 
 
 def check_completeness(ws, hs):
-    return []
+    msgs = []
+    return msgs
